@@ -50,6 +50,16 @@ text (or is escaped), and nothing was unrecognised by the translator. Re-checked
 theorem book_lines_ok :
     ∀ b ∈ bookTable ++ fillTable, ∀ segs ∈ b.2, BookLineOk segs = true := by decide
 
+/-- The names are where the jobs need them: every backend's booking lines have a place for the
+tree name and one for the branch name, and the ATLAS fill line (which finds its tree by name)
+has one for the tree name. Re-checked on every run. -/
+theorem name_slots_present :
+    (∀ b ∈ bookTable, (b.2.any fun l => (nameSlot l).any (·.2.1 == .tree)) = true ∧
+                      (b.2.any fun l => (nameSlot l).any (·.2.1 == .col)) = true) ∧
+    bookTable.map (·.1) = ["atlas", "cms_aod", "cms_miniaod"] ∧
+    (((fillTable.lookup "atlas").getD []).any fun l => (nameSlot l).any (·.2.1 == .tree)) = true := by
+  decide
+
 /-! ## strings -/
 
 /-- **Strings pass through character for character.** For EVERY string `s` (quotes, backslashes,
